@@ -2,7 +2,7 @@
 # Builds /verif/seeded/RESULTS.md from the per-seed results.tsv files written by seedtest.sh.
 import glob, json, os, collections
 rows=[]
-for d in sorted(glob.glob('/verif/seeded/C*-[a-r]')):
+for d in sorted(glob.glob('/verif/seeded/C*-[a-t]')):
     name=os.path.basename(d)
     meta=json.load(open(d+'/meta.json'))
     res=collections.OrderedDict()
